@@ -343,13 +343,31 @@ pub fn replay_r(edges: &str, out: &str) -> std::io::Result<()> {
         let h = e["h"].as_array().expect("history").clone();
         let r = catch(|| {
             let img = build_image(&e);
-            let mut rd = PagedReader::new(Dev::from_bytes(img), PAGE as u64).expect("open");
+            let npages = img.len() / PAGE;
+            let mut rd = PagedReader::new(Dev::from_bytes(img.clone()), PAGE as u64).expect("open");
             let mut last = json!({"ok":0});
             for op in &h {
                 last = apply_r(&mut rd, op);
             }
-            let obs = apply_r(&mut rd, &json!({"op":"rread","n":7}));
-            (last, obs)
+            let next = apply_r(&mut rd, &json!({"op":"rread","n":7}));
+            // per-page probes, each from a fresh replay of the history (they expose the cache state)
+            let mut probes = Vec::new();
+            for k in 0..npages {
+                let mut rd = PagedReader::new(Dev::from_bytes(img.clone()), PAGE as u64).expect("open");
+                for op in &h {
+                    apply_r(&mut rd, op);
+                }
+                apply_r(&mut rd, &json!({"op":"rseek","off": k * PAGE}));
+                let r = apply_r(&mut rd, &json!({"op":"rread","n": PAYLOAD}));
+                probes.push(match r.get("ok") {
+                    Some(b) => {
+                        let bytes: Vec<u8> = b.as_array().unwrap().iter().map(|x| x.as_u64().unwrap() as u8).collect();
+                        json!({"ok": jbytes(&crc32c_bitwise(&bytes).to_be_bytes())})
+                    }
+                    None => r,
+                });
+            }
+            (last, json!({"next": next, "pages": probes}))
         });
         match r {
             Ok((last, obs)) => {
@@ -388,15 +406,27 @@ pub fn trace_case_r(case: &str, out: &str) -> std::io::Result<()> {
     let mut t = TraceOut::create(out)?;
     t.ev(json!({"ev":"reset","run":0}));
     let img = build_image(&e);
-    match PagedReader::new(Dev::from_bytes(img.clone()), PAGE as u64) {
-        Ok(mut rd) => {
-            t.ev(json!({"ev":"r_open","img":jbytes(&img),"res":{"ok":0}}));
-            for op in e["h"].as_array().expect("h") {
-                trace_r(&mut t, &mut rd, op);
-            }
-            trace_r(&mut t, &mut rd, &json!({"op":"rread","n":7}));
+    let npages = img.len() / PAGE;
+    // the history followed by read(7), then once more followed by each per-page probe
+    for probe in 0..=npages {
+        if probe > 0 {
+            t.ev(json!({"ev":"reset","run":probe}));
         }
-        Err(_) => t.ev(json!({"ev":"r_open","img":jbytes(&img),"res":{"err":1}})),
+        match PagedReader::new(Dev::from_bytes(img.clone()), PAGE as u64) {
+            Ok(mut rd) => {
+                t.ev(json!({"ev":"r_open","img":jbytes(&img),"res":{"ok":0}}));
+                for op in e["h"].as_array().expect("h") {
+                    trace_r(&mut t, &mut rd, op);
+                }
+                if probe == 0 {
+                    trace_r(&mut t, &mut rd, &json!({"op":"rread","n":7}));
+                } else {
+                    trace_r(&mut t, &mut rd, &json!({"op":"rseek","off": (probe - 1) * PAGE}));
+                    trace_r(&mut t, &mut rd, &json!({"op":"rread","n": PAYLOAD}));
+                }
+            }
+            Err(_) => t.ev(json!({"ev":"r_open","img":jbytes(&img),"res":{"err":1}})),
+        }
     }
     t.f.flush()
 }
